@@ -11,11 +11,22 @@
 //     all reverted segments deleted; a root mismatch is explained by a leaf-level diff of
 //     the two account tries (and their storage tries).
 //
-// Every history is executed twice: once ending in the full observation followed by the
-// root ("warm": the queries have filled the object caches), once ending directly in the
-// root ("cold").  ReadAll (the full observation) is also a letter of the alphabet, so
-// queries are interleaved at every position of a history, including inside segments that
-// are reverted later.
+// Every history with a revert is executed twice: once ending in the full observation
+// followed by the root ("warm": the queries have filled the object caches), once ending
+// directly in the root ("cold"); the thorough tier adds IntermediateRoot(false).  ReadAll
+// (the full observation) and GetCommittedState (the read the EVM's SSTORE gas rule makes)
+// are letters of the alphabet, so queries are interleaved at every position of a history,
+// including inside segments that are reverted later.
+//
+// The explored space is a union of slices (buildSlices): each slice = ALL valid histories up
+// to its depth over its alphabet, from one of the start states {dev genesis state; genesis +
+// a committed storage-only account and a committed contract; thorough: the committing
+// AccountDB object itself}.  Three addresses per start state, chosen by life cycle.
+//
+// A model mismatch in a history without RevertToSnapshot is a deviation of forward
+// semantics, outside this property: it is recorded in the evidence, never flagged.
+// A failing history is reported only if no call (or pair of calls) can be removed from it
+// without losing the failure, and its subtree is not expanded.
 package main
 
 import (
@@ -131,8 +142,11 @@ type slice struct {
 	ft    bool
 	keep  bool // also compare IntermediateRoot(false)
 
-	m0    *model
-	okeys []string
+	m0       *model
+	b        *bfs
+	frontier []item
+	done     int // deepest level completely evaluated
+	okeys    []string
 	memo  map[string]*refRes
 	c     *fw.Ctx
 }
@@ -793,53 +807,54 @@ func (b *bfs) children(idx []byte, m *model, f func(child []byte)) {
 	}
 }
 
-func (s *slice) explore(c *fw.Ctx, caseIdx *int64) {
+type item struct {
+	idx []byte
+	m   *model
+}
+
+// start walks levels 0..2 of the slice.  Levels 0 and 1 are walked by every worker (needed
+// to generate the shards) and counted by one; the level-2 subtrees are the shards.
+func (s *slice) start(c *fw.Ctx, caseIdx *int64) {
 	s.init(c)
 	b := &bfs{s: s, c: c, visited: map[[16]byte]struct{}{}, fwdNoted: map[string]bool{}}
+	s.b = b
 	mine := func() bool { v := c.Mine(*caseIdx); *caseIdx++; return v }
-
-	type item struct {
-		idx []byte
-		m   *model
-	}
-	var frontier []item
-	// levels 0 and 1 are walked by every worker (needed to generate the shards), counted by one
 	if m := b.visit(nil, mine()); m != nil && s.depth >= 1 {
 		b.children(nil, m, func(l1 []byte) {
 			m1 := b.visit(l1, mine())
 			if m1 == nil || s.depth < 2 {
 				return
 			}
-			// level 2 subtrees are the shards
 			b.children(l1, m1, func(l2 []byte) {
 				if !mine() {
 					return
 				}
 				if m2 := b.visit(l2, true); m2 != nil {
-					frontier = append(frontier, item{l2, m2})
+					s.frontier = append(s.frontier, item{l2, m2})
 				}
 			})
 		})
 	}
-	for level := 3; level <= s.depth && !b.stop; level++ {
-		var next []item
-		for _, it := range frontier {
-			if b.stop {
-				break
+	s.done = 2
+}
+
+// step evaluates the next level of the slice (all one-call extensions of the frontier).
+func (s *slice) step() {
+	b := s.b
+	var next []item
+	for _, it := range s.frontier {
+		if b.stop {
+			return
+		}
+		b.children(it.idx, it.m, func(ch []byte) {
+			if m := b.visit(ch, true); m != nil {
+				next = append(next, item{ch, m})
 			}
-			b.children(it.idx, it.m, func(ch []byte) {
-				if m := b.visit(ch, true); m != nil {
-					next = append(next, item{ch, m})
-				}
-			})
-		}
-		if !b.stop {
-			c.Count(fmt.Sprintf("completed:%s:depth%d", s.name, level), 1)
-		}
-		frontier = next
+		})
 	}
-	if b.stop {
-		c.Cap(fmt.Sprintf("time cap: slice %s not finished to depth %d", s.name, s.depth))
+	if !b.stop {
+		s.frontier = next
+		s.done++
 	}
 }
 
@@ -850,14 +865,49 @@ func run(c *fw.Ctx) {
 		defer pprof.StopCPUProfile()
 	}
 	gen, com, warm := boot()
+	slices := buildSlices(c.Thorough(), gen, com, warm)
 	var caseIdx int64
-	for _, s := range buildSlices(c.Thorough(), gen, com, warm) {
-		if c.Expired() {
-			c.Cap(fmt.Sprintf("time cap: slice %s not started", s.name))
-			continue
+	maxDepth := 0
+	for _, s := range slices {
+		s.start(c, &caseIdx)
+		if s.depth > maxDepth {
+			maxDepth = s.depth
 		}
-		c.Note("alphabet:"+s.name, fmt.Sprintf("%d letters, depth %d", len(s.ops), s.depth))
-		s.explore(c, &caseIdx)
+	}
+	// breadth first across the slices as well: every slice to depth 3, then every slice to
+	// depth 4, ... so that a time cap cuts the deepest levels, never a whole slice
+	expired := false
+	for level := 3; level <= maxDepth && !expired; level++ {
+		for _, s := range slices {
+			if s.depth < level || s.done != level-1 {
+				continue
+			}
+			if c.Expired() {
+				expired = true
+				break
+			}
+			s.step()
+			if s.b.stop {
+				expired = true
+				break
+			}
+		}
+	}
+	for _, s := range slices {
+		d := s.done
+		if d > s.depth {
+			d = s.depth
+		}
+		if d < s.depth {
+			c.Cap(fmt.Sprintf("time cap: slice %s completed to depth %d of %d", s.name, d, s.depth))
+		}
+	}
+	if c.Shard == 0 {
+		var l []string
+		for _, s := range slices {
+			l = append(l, fmt.Sprintf("%s:%d letters:depth %d", s.name, len(s.ops), s.depth))
+		}
+		c.Note("slices", strings.Join(l, "; "))
 	}
 }
 
